@@ -535,6 +535,24 @@ theorem autoTA_inv (P : Params) (cfg : List Key) (d : Disk) (live : List Key) (f
         · rw [hpe]; exact hv
         · rw [hpe]
 
+/-- a tombstone file that does not decode (garbage, truncated, zero length) —
+like one that cannot be read — makes `readTombstones` fail closed. -/
+theorem readTomb_undecodable (d : Disk) (fl : Faults) (h : d.tomb.undecodable = true) :
+    readTomb d fl = .corrupt := by
+  unfold readTomb
+  split
+  · rfl
+  · cases htomb : d.tomb <;> simp_all [FileC.undecodable]
+
+theorem readTomb_ok (d : Disk) (fl : Faults) (t : List Nat) (h : readTomb d fl = .ok t) :
+    d.tomb.undecodable = false ∧ fl.tombRead = false := by
+  unfold readTomb at h
+  split at h
+  · cases h
+  · next hT =>
+    refine ⟨?_, by simpa using hT⟩
+    cases htomb : d.tomb <;> simp_all [FileC.undecodable]
+
 /-! ### tracking the entries of `kskCurrent` through a run -/
 
 theorem setRevoked_inv (cur : List TA) (t now : Nat) (old : TA) (h : lookup cur t = some old) :
